@@ -12,6 +12,7 @@ import (
 	"bytes"
 	"fmt"
 	"math"
+	"path/filepath"
 	"strconv"
 	"strings"
 
@@ -260,4 +261,232 @@ func layoutAgreement(text string, ref []obj.ObjMesh) (why, layout string) {
 		}
 	}
 	return "", ""
+}
+
+// ---- names --------------------------------------------------------------------------------------
+//
+// Scope (a-names): group and material names are free text to the writer (it emits them verbatim) and
+// must come back as they were: names containing '#', '/', '.', names that are OBJ keywords, digits,
+// non-ASCII letters.  (Names with leading/trailing blanks or runs of blanks are outside the scope.)
+
+var nameMenu = []string{"wheel#1", "#1", "a#b#c", "#", "x/y", "a.b", "ünï", "0", "-", "g", "usemtl", "v", "f", "vt", "mtllib", "o", "s", "paint#2"}
+
+const clNames = "reading back yields one group per mesh with the same name, and the same material on every triangle, whatever characters the names are made of"
+
+func (k *checker) nameCase(meshNames, matNames [2]string) {
+	c := k.c
+	cs := Case{Kind: "names", Names: []string{meshNames[0], meshNames[1], matNames[0], matNames[1]}}
+	scope := "names"
+	what := fmt.Sprintf("meshes %q, %q with materials %q, %q", meshNames[0], meshNames[1], matNames[0], matNames[1])
+	c.Nontrivial("names", what)
+	var ms []obj.ObjMesh
+	mats := [2]*modeling.Material{{Name: matNames[0]}, {Name: matNames[1]}}
+	for i := 0; i < 2; i++ {
+		d := MeshDesc{Name: meshNames[i], Spec: meshlib.Spec{Topo: "tri", V: 3, Idx: []int{0, 1, 2}, Mix: "PNT"}}
+		m := d.build()
+		m.Mesh = m.Mesh.SetMaterials([]modeling.MeshMaterial{{PrimitiveCount: 1, Material: mats[i]}})
+		ms = append(ms, m)
+	}
+	class := "names/" + nameClass(meshNames[0]+meshNames[1]+matNames[0]+matNames[1])
+	var buf bytes.Buffer
+	var err error
+	o := core.Guard(func() { err = obj.WriteMeshes(ms, "", &buf) })
+	if o.Panicked || err != nil {
+		c.Eval(scope, "write-failure")
+		k.fail("obj.WriteMeshes", clFailA, class, fmt.Sprint(o.Msg, err, " — ", what), cs)
+		return
+	}
+	text := buf.String()
+	var back []obj.ObjMesh
+	o = core.Guard(func() { back, _, err = obj.ReadMesh(strings.NewReader(text)) })
+	if o.Panicked || err != nil {
+		c.Eval(scope, "read-failure")
+		k.fail("obj.ReadMesh", clNames, class, fmt.Sprint("reading the written text failed: ", o.Msg, err, " — ", what, "\n", text), cs)
+		return
+	}
+	outcome := "ok"
+	if len(back) != 2 {
+		outcome = "mismatch"
+		k.fail("obj.ReadMesh", clNames, class, fmt.Sprintf("%d groups read back, 2 meshes written — %s\n%s", len(back), what, text), cs)
+	} else {
+		for i := 0; i < 2 && outcome == "ok"; i++ {
+			mm := back[i].Mesh.Materials()
+			switch {
+			case back[i].Name != meshNames[i]:
+				outcome = "mismatch"
+				k.fail("obj.ReadMesh", clNames, class, fmt.Sprintf("group %d is named %q, mesh was named %q — %s\n%s", i, back[i].Name, meshNames[i], what, text), cs)
+			case len(mm) != 1 || mm[0].Material == nil || mm[0].Material.Name != matNames[i] || mm[0].PrimitiveCount != 1:
+				outcome = "mismatch"
+				got := "none"
+				if len(mm) > 0 && mm[0].Material != nil {
+					got = fmt.Sprintf("%q x%d (%d ranges)", mm[0].Material.Name, mm[0].PrimitiveCount, len(mm))
+				}
+				k.fail("obj.ReadMesh", clNames, class, fmt.Sprintf("group %q carries material %s, the mesh had %q — %s\n%s", back[i].Name, got, matNames[i], what, text), cs)
+			}
+		}
+		if outcome == "ok" && matNames[0] != matNames[1] && back[0].Mesh.Materials()[0].Material == back[1].Mesh.Materials()[0].Material {
+			outcome = "mismatch"
+			k.fail("obj.ReadMesh", clNames, class, fmt.Sprintf("two different materials came back as one — %s\n%s", what, text), cs)
+		}
+	}
+	c.Eval(scope, outcome)
+}
+
+func nameClass(s string) string {
+	switch {
+	case strings.Contains(s, "#"):
+		return "contains-hash"
+	case strings.ContainsAny(s, "/.-"):
+		return "punctuation"
+	}
+	for _, r := range s {
+		if r > 127 {
+			return "non-ascii"
+		}
+	}
+	return "keyword-or-digit"
+}
+
+func (k *checker) runNames(base int) bool {
+	c := k.c
+	i := 0
+	for _, a := range nameMenu {
+		for _, b := range nameMenu {
+			i++
+			if !c.Mine(base + i) {
+				continue
+			}
+			if c.Expired() {
+				return false
+			}
+			if a != b {
+				k.nameCase([2]string{a, b}, [2]string{"matA", "matB"})
+				k.nameCase([2]string{"first", "second"}, [2]string{a, b})
+			}
+			k.nameCase([2]string{a, "other"}, [2]string{b, "matB"})
+		}
+	}
+	c.Bound("a.names", fmt.Sprintf("every ordered pair of %d names (%q) as the two mesh names, as the two material names, and as one mesh name with one material name", len(nameMenu), nameMenu))
+	return true
+}
+
+// ---- files: sequences of Save to one path -----------------------------------------------------------
+//
+// Scope (a-files): obj.Save writes "the mesh", not "the mesh over whatever the path held before".
+// Every sequence of 1..3 saves of a three-mesh menu (6, 2 and 1 triangles; with two materials, one
+// material, none) to the same path, followed by obj.Load: the loaded triangles are those of the mesh
+// saved last.
+
+var fileMenu = []MeshDesc{
+	{Name: "", Spec: meshlib.Spec{Topo: "tri", V: 8, Idx: []int{0, 1, 2, 2, 1, 3, 4, 5, 6, 6, 5, 7, 0, 2, 4, 1, 3, 5}, Mix: "PNT"}, Mats: [][2]int{{4, 1}, {2, 2}}},
+	{Name: "", Spec: meshlib.Spec{Topo: "tri", V: 4, Idx: []int{2, 1, 0, 1, 2, 3}, Mix: "PT"}, Mats: [][2]int{{2, 2}}},
+	{Name: "", Spec: meshlib.Spec{Topo: "tri", V: 3, Idx: []int{0, 1, 2}, Mix: "P"}},
+}
+
+const clFiles = "writing a mesh to a file and loading the file yields the triangles of that mesh (whatever the path held before)"
+
+func (k *checker) filesCase(seq []int) {
+	c := k.c
+	cs := Case{Kind: "files", Seq: append([]int{}, seq...)}
+	scope := "files/save-sequences"
+	class := fmt.Sprintf("files/saves=%d", len(seq))
+	if len(seq) > 1 {
+		if fileMenu[seq[len(seq)-1]].Spec.PrimCount() < fileMenu[seq[len(seq)-2]].Spec.PrimCount() {
+			class += "/last-smaller-than-previous"
+		} else {
+			class += "/last-not-smaller"
+		}
+	}
+	dir, derr := k.scratch()
+	if derr != nil {
+		c.HarnessError("scratch dir: %v", derr)
+		return
+	}
+	path := filepath.Join(dir, fmt.Sprintf("seq-%d", k.n), "model.obj")
+	k.n++
+	c.Nontrivial("files", fmt.Sprint(seq))
+	what := fmt.Sprintf("saves of meshes %v (triangles %v) to one path", seq, func() (t []int) {
+		for _, i := range seq {
+			t = append(t, fileMenu[i].Spec.PrimCount())
+		}
+		return
+	}())
+	var err error
+	for _, i := range seq {
+		m := fileMenu[i].build().Mesh
+		o := core.Guard(func() { err = obj.Save(path, m) })
+		if o.Panicked || err != nil {
+			c.Eval(scope, "save-failure")
+			k.fail("obj.Save", clFiles, class, fmt.Sprint("saving failed: ", o.Msg, err, " — ", what), cs)
+			return
+		}
+	}
+	last := fileMenu[seq[len(seq)-1]]
+	var back []obj.ObjMesh
+	o := core.Guard(func() { back, err = obj.Load(path) })
+	if o.Panicked || err != nil {
+		c.Eval(scope, "load-failure")
+		k.fail("obj.Save", clFiles, class, fmt.Sprint("loading the file just saved failed: ", o.Msg, err, " — ", what), cs)
+		return
+	}
+	var got [][3]vector3.Float64
+	for _, g := range back {
+		if !g.Mesh.HasFloat3Attribute(modeling.PositionAttribute) {
+			continue
+		}
+		pos, idx := g.Mesh.Float3Attribute(modeling.PositionAttribute), g.Mesh.Indices()
+		for t := 0; t+2 < idx.Len(); t += 3 {
+			got = append(got, [3]vector3.Float64{pos.At(idx.At(t)), pos.At(idx.At(t + 1)), pos.At(idx.At(t + 2))})
+		}
+	}
+	outcome := "ok"
+	n := last.Spec.PrimCount()
+	if len(got) != n {
+		outcome = "mismatch"
+		k.fail("obj.Save", clFiles, class, fmt.Sprintf("the mesh saved last has %d triangles, the file loads as %d — %s", n, len(got), what), cs)
+	} else {
+		for t := 0; t < n && outcome == "ok"; t++ {
+			for cc := 0; cc < 3; cc++ {
+				w := last.corner(t, cc)
+				p := got[t][cc]
+				if !(f32near(p.X(), w.P[0]) && f32near(p.Y(), w.P[1]) && f32near(p.Z(), w.P[2])) {
+					outcome = "mismatch"
+					k.fail("obj.Save", clFiles, class, fmt.Sprintf("triangle %d corner %d loads at %v, the mesh saved last has %v — %s", t, cc, p, w.P, what), cs)
+					break
+				}
+			}
+		}
+	}
+	c.Eval(scope, outcome)
+}
+
+func (k *checker) runFiles(base int) bool {
+	c := k.c
+	i := 0
+	var rec func(seq []int)
+	stop := false
+	rec = func(seq []int) {
+		if stop {
+			return
+		}
+		if len(seq) > 0 {
+			i++
+			if c.Mine(base + i) {
+				if c.Expired() {
+					stop = true
+					return
+				}
+				k.filesCase(seq)
+			}
+		}
+		if len(seq) == 3 {
+			return
+		}
+		for m := range fileMenu {
+			rec(append(append([]int{}, seq...), m))
+		}
+	}
+	rec(nil)
+	c.Bound("a.files", "every sequence of 1..3 obj.Save calls over a menu of three meshes (6, 2, 1 triangles) to one path, then obj.Load")
+	return !stop
 }
